@@ -416,6 +416,7 @@ fn canon(v: &Value) -> String {
 }
 
 fn eval_text(scope: &Scope, text: &str) -> String {
+  crate::util::note_case(text);
   match guarded(|| match dmntk_feel_parser::parse_expression(scope, text, false) {
     Ok(node) => match dmntk_feel_evaluator::evaluate(scope, &node) {
       Ok(v) => canon(&v),
